@@ -178,7 +178,7 @@ class C24:
     PROP = "C24"
     LEVEL = "exploration"
     TIERS = {
-        "quick": {"runs": 24000, "budget_s": 40, "chunk": 60, "determinism_runs": 48},
+        "quick": {"runs": 24000, "budget_s": 40, "chunk": 100, "determinism_runs": 48},
         "thorough": {"runs": 2400000, "budget_s": 600, "chunk": 400, "determinism_runs": 256,
                      "minimise_s": 90},
     }
